@@ -117,7 +117,7 @@ def c02_1(ctx):
         for nm in ("multiply", "raw_mul", "__mul__"):
             if nm in meths:
                 funcs.append((None, (m, meths[nm])))
-    ok_calls = {"self.Point", "Point", "self.__class__", "self._curve.add", "self._curve.multiply", "self.raw_mul", "self.multiply", "self.__mul__", "self.infinity", "self._curve.infinity"}
+    ok_calls = {"self.Point", "Point", "self._curve.Point", "self._curve.add", "self._curve.multiply", "self.raw_mul", "self.multiply", "self.__mul__", "self.infinity", "self._curve.infinity"}
     for fi, nat in funcs:
         node = fi.node if fi is not None else nat[1]
         name = fi.qualname if fi is not None else "%s.Optimizations.%s" % (nat[0].name, nat[1].name)
@@ -260,8 +260,24 @@ def c02_4(ctx):
     ctx.check(ok, "blinding-cancels", ctx.where(f), "Generator.__mul__ computes the sum of fixed-base multiples with scalar coefficients %s; the blinding offsets must cancel leaving exactly 1*e" % total,
               sample={"function": f.qualname, "net_scalar": total})
     init = ctx.func(GEN, "Generator.__init__")
-    t = norm(init.node)
-    ctx.check("self._blinding_factor = int.from_bytes(entropy_f(32), 'big') % order" in t and "self._minus_blinding_factor_g = self.raw_mul(-self._blinding_factor)" in t, "blinding-setup", ctx.where(init), "the blinding factor is not fresh entropy mod order with its negative multiple cached once")
+    wi = sym.walk(ctx, init, int_names=INTS)
+    sets = {}
+    for e in wi.effects:
+        if e.kind == "setattr" and norm(e.target) == "self" and e.attr in ("_blinding_factor", "_minus_blinding_factor_g"):
+            sets.setdefault(e.attr, []).append(e)
+    bf = sets.get("_blinding_factor", [])
+    mg = sets.get("_minus_blinding_factor_g", [])
+    ok = len(bf) == 1 and len(mg) == 1 and sym._equiv(bf[0].reach, mg[0].reach)       # set together (under the constructor's own preconditions)
+    if ok:
+        v = bf[0].value
+        order_p = init.params()[5] if len(init.params()) > 5 else "order"
+        fresh = isinstance(v, ast.BinOp) and isinstance(v.op, ast.Mod) and norm(v.right) in (order_p, "self._order") and isinstance(v.left, ast.Call) and norm(v.left.func) == "int.from_bytes" \
+            and v.left.args and isinstance(v.left.args[0], ast.Call) and norm(v.left.args[0].func) == "entropy_f"
+        m = mg[0].value
+        neg = isinstance(m, ast.Call) and norm(m.func) == "self.raw_mul" and len(m.args) == 1 and norm(wi.canon.expr(ast.UnaryOp(ast.USub(), m.args[0]))) in (norm(v), "self._blinding_factor")
+        neg = neg or (isinstance(m, ast.Call) and norm(m.func) == "self.raw_mul" and len(m.args) == 1 and norm(m.args[0]) in ("-(%s)" % norm(v), "-self._blinding_factor", norm(wi.canon.expr(ast.UnaryOp(ast.USub(), v)))))
+        ok = fresh and neg
+    ctx.check(ok, "blinding-setup", ctx.where(init), "the blinding factor is not fresh entropy mod order with its negative multiple cached once (set: %s / %s)" % ([norm(e.value)[:80] for e in bf], [norm(e.value)[:80] for e in mg]))
     stores = [(m.name, norm(st)) for m in ctx.p.cls(GEN, "Generator").methods.values() if m.name != "__init__" for st in body_nodes(m.node)
               if isinstance(st, (ast.Assign, ast.AugAssign)) and "_blinding_factor" in norm(st.targets[0] if isinstance(st, ast.Assign) else st.target)]
     ctx.check(not stores, "blinding-immutable", ctx.where(init), "the blinding factor is reassigned outside __init__: %s" % stores)
@@ -287,6 +303,7 @@ def c02_5(ctx):
 def c02_6(ctx):
     n = ctx.func(POINT, "Point.__neg__")
     _refcheck(ctx, POINT, "Point.__neg__", "pt_neg", "negation")
+    _neg_builds_plain_point(ctx)
     w = sym.walk(ctx, n, int_names=INTS)
     calc = [e for e in w.exits if e.kind == "return" and e.value is not None and "self._curve.p()" in norm(e.value)]
     if not calc:
@@ -318,6 +335,16 @@ def _c02_resolver(ctx, fi):
     if fi.qualname in names:
         return _ref(), names[fi.qualname], INTS
     return None
+
+
+def _neg_builds_plain_point(ctx):
+    f = ctx.func(POINT, "Point.__neg__")
+    w = sym.walk(ctx, f)
+    for e in w.exits:
+        if e.kind == "return" and isinstance(e.value, ast.Call):
+            fn_t = norm(e.value.func)
+            ctx.check(fn_t not in ("self.__class__", "type(self)", "self.__class__.__new__"), "negation-plain-point", ctx.where(f, e.node),
+                      "Point.__neg__ builds its result with `%s`: for a Generator that is the curve-and-point class, whose constructor takes the curve parameters, so -G, P - G and the ladder over G raise TypeError" % fn_t)
 
 
 # ------------------------------------------------------------------ C02.7
